@@ -383,6 +383,17 @@ func PlaySched(beh M) ([]M, error) {
 			return nil, fmt.Errorf("sched: portal setup failed")
 		}
 	}
+	// now and then an earlier connection of this server ended with a command that failed at the level of the
+	// connection (a Query whose text has no terminator): that command is accounted for like any other
+	if I(beh, "_i")%4 == 1 {
+		j := x.Dial()
+		j.Send(pgw.Startup(pgw.Version30, [][2]string{{"user", "junk"}}, true))
+		j.WaitQuiet(WaitTimeout) //nolint
+		j.Send(pgw.Typed('Q', []byte("q1 without terminator")))
+		j.WaitQuiet(WaitTimeout) //nolint
+		j.CloseClient()
+		j.WaitClosed(WaitTimeout) //nolint
+	}
 	// now and then a further client is in the middle of its start-up (connected and silent, or part of its
 	// start-up packet sent) for as long as the schedule and the shutdown last: Close and Serve do not wait for it
 	var starting *mem.Conn
